@@ -10,7 +10,7 @@ translate:      harness/translate_attr.py (lean_easylist) -> Generated/EasyListR
 proof:          lean/OdfModel/Props/C20Grammar.lean (ids_*, shape_*, grammar_accepts, values_accepted, ...) about
                 lean/OdfModel/EasyListCalls.lean x GrammarApi x AttrConv over the regenerated tables;
                 lean/OdfModel/Props/C20.lean (levels_count, levels_numbered, number_iff, prefix_suffix, num_format,
-                display_levels, bullet_first_char, indent_shape_partial, cssSplit_number, cssSplit_unit, split_join,
+                display_levels, bullet_first_char, bullet_ignores_tail, indent_shape_partial, cssSplit_number, cssSplit_unit, split_join,
                 string_form, ...) about
                 lean/OdfModel/EasyList.lean
 correspondence: children and attributes of the element returned by styleFromList / styleFromString  vs  drv_easylist
@@ -38,6 +38,38 @@ CSS_NUMBERS = ['1', '0.6', '.5', '12.75', '5.0', '+2', '-1.5', '0', '10', '0.25'
 PRE = [u'', u'(', u'Chapter ', u'§', u'第', u'\U0001F600', u'x.', u' ', u'<&"', u'[', u'é']
 SUF = [u'', u')', u'.', u' -', u'章', u'\U0001F600', u':', u'.)', u'1', u'a', u'I.']     # later format characters stay in the suffix
 BULLETS = [u'*', u'•', u'-', u'\U0001F600', u'→ x', u'é', u'bullet', u'>>', u' ', u'&<', u'\U0001D7D9', u'●○', u'+', u'o', u'ⅰ']
+# what may FOLLOW the first character of a bullet specification without becoming part of the bullet ("a bullet level whose
+# bullet is its first character": exactly one code point, whatever a renderer would cluster with it)
+TAIL_CLASSES = [
+    ('variation-selector', [u'\ufe0e', u'\ufe0f', u'\ufe00', u'\U000e0100', u'\u180b']),
+    ('combining-mark', [u'\u0301', u'\u0338', u'\u20e3', u'\u20dd', u'\u0489', u'\u3099', u'\U0001d165', u'\u0301\u0323']),
+    ('keycap', [u'\ufe0f\u20e3']),
+    ('zwj-sequence', [u'\u200d\U0001f4bb', u'\u200d\u2642\ufe0f', u'\ufe0f\u200d\U0001f525', u'\u200d', u'\u200c', u'\u2060']),
+    ('emoji-modifier', [u'\U0001f3fb', u'\U0001f3ff', u'\U0001f3fd\u200d\U0001f4bb']),
+    ('astral', [u'\U0001f600', u'\U0001d7d9', u'\U0010fffd', u'\U0001f1ea', u'\U000e0067\U000e007f']),
+    ('surrogate', [u'\ud83d', u'\ude00', u'\ud83d\ude00', u'\udbff\udfff']),
+    ('conjoining', [u'\u1161', u'\u1161\u11a8', u'\u094d\u0937', u'\u0e33']),
+]
+# first characters none of which is one of 1 I i A a: symbols an emoji keyboard follows with a selector, ASCII keycap bases,
+# letters that take marks, astral symbols / people / regional indicators, and marks, selectors and joiners standing first
+HEADS = [u'\u2714', u'\u2764', u'\u2611', u'\u25b6', u'\u2022', u'*', u'#', u'-', u'e', u'o', u'\u00e9', u'\u4e2d', u'\u1100', u'\u0915',
+         u'\U0001f469', u'\U0001f44d', u'\U0001f1e9', u'\U0001f3f3', u'\U0001d7d9', u'\u0301', u'\ufe0f', u'\ufe0e', u'\u200d', u'\u20e3']
+
+
+def tail_class(spec):
+    """class of what follows the first character of a specification (for the input distribution), or None"""
+    for name, tails in TAIL_CLASSES:
+        if any(spec[1:].startswith(t) for t in tails):
+            return name
+    return None
+
+
+def gen_cluster_bullet(rng):
+    """a bullet specification whose first character is followed by something a renderer clusters with it"""
+    name, tails = rng.choice(TAIL_CLASSES)
+    return rng.choice(HEADS) + rng.choice(tails) + rng.choice([u'', u'', u' x', u'\ufe0f', u'\u0301', u')', u'\U0001f600'])
+
+
 DELIMS = [u',', u';', u'|', u'/', u'::', u' ', u'\t', u'!!', u'é', u'\U0001F600', u'<>', u'\n']
 
 
@@ -192,8 +224,10 @@ def gen_specs(rng, n):
             if pos == 'start': pre = u''
             if pos == 'end': suf = u''
             specs.append(pre + rng.choice(FORMATS) + suf)
-        elif r < 0.92:
+        elif r < 0.80:
             specs.append(rng.choice(BULLETS))
+        elif r < 0.92:
+            specs.append(gen_cluster_bullet(rng))
         else:
             specs.append(rng.choice(format_neighbours()) + rng.choice([u'', u')', u'.']))
     return specs
@@ -355,7 +389,8 @@ def run(chk, replay=None):
     from odf.opendocument import OpenDocumentText
     chk.rule = ('seeded specification lists: 1-10 levels, each numbering (format character at start/middle/end, prefixes and '
                 'suffixes incl. non-ASCII, astral, XML-special, later format characters) or bullet (ASCII, non-ASCII, astral, '
-                'multi-character); both display modes; spacing = every CSS unit x decimal/signed numbers; string form with 12 '
+                'multi-character; first character followed by variation selectors, combining marks, keycaps, ZWJ sequences, emoji '
+                'modifiers, astral characters, surrogates, conjoining letters); both display modes; spacing = every CSS unit x decimal/signed numbers; string form with 12 '
                 'delimiters; plus malformed inputs (empty specification, empty delimiter, non-numeric spacing) for the '
                 'correspondence only; non-trivial = at least one numbering and the list has >= 2 levels, or a non-ASCII bullet')
 
@@ -476,6 +511,17 @@ def run(chk, replay=None):
     singles += [c for c in format_neighbours() if c not in singles]
     for c in singles:
         cases.append(('list', u'L', [c, u'-' + c], [c, u'-' + c], u'1cm', True, True))
+    # every head x everything that may follow it (variation selectors, combining marks, keycaps, ZWJ sequences, emoji
+    # modifiers, astral characters, surrogates, conjoining letters): the bullet is the first code point, alone
+    k = 0
+    for cname, tails in TAIL_CLASSES:
+        for t in tails:
+            for h in (HEADS if thorough else HEADS[:6] + rng.sample(HEADS[6:], 6)):
+                k += 1
+                specs = [h + t, u'(1)', h + t + u' x'] if k % 3 == 0 else [h + t]
+                cases.append(('list', u'L', specs, specs, u'0.5cm', k % 2 == 0, True))
+                if k % 5 == 0:
+                    cases.append(('str', u'L', (u'|'.join(specs), u'|'), specs, u'0.5cm', True, True))
     N = 6000 if thorough else 1500
     for _ in range(N):
         n = rng.randint(1, 10)
@@ -502,6 +548,9 @@ def run(chk, replay=None):
         n = rng.randint(1, 10)
         specs = [s for s in gen_specs(rng, n)]
         specs = [s.replace(d, u'') or u'*' for s in specs]
+        # removing the delimiter may leave a lone surrogate in FIRST position: no character an XML attribute can hold (what the
+        # writer does with those is properties C01 / C02), so such a bullet is outside this property; keep it behind a bullet
+        specs = [(u'*' + s) if 0xD800 <= ord(s[0]) <= 0xDFFF else s for s in specs]
         # a delimiter that re-appears across a boundary changes the split (str.split cuts at the leftmost occurrence):
         # such inputs stay in the correspondence but the oracle is only asked about what the caller can mean
         scope = d.join(specs).split(d) == specs
@@ -605,6 +654,9 @@ def run(chk, replay=None):
                  sample={'specs': specs, 'spacing': spacing, 'showAll': sa, 'kind': kind})
         chk.count('levels_%d' % len(specs)); chk.count('numbered', numbered); chk.count('bullets', len(specs) - numbered)
         chk.count('spacing_' + spacing_class(spacing)); chk.count('oracle_' + kind)
+        for s_ in specs:
+            if not any(c in FORMATS for c in s_) and tail_class(s_):
+                chk.count('bullet_followed_by_' + tail_class(s_))
         mcss = CSS_LENGTH.match(spacing)
         if re.search(r'[eE]', mcss.group(1)): chk.count('spacing_exponent')
         if mcss.group(2) != mcss.group(2).lower(): chk.count('spacing_uppercase_unit')
